@@ -1267,7 +1267,23 @@ def _index_nd(a, key):
     # advanced indices: accept (a) exactly one array of any rank-1; (b) several arrays that are an
     # open mesh (np.ix_): array number t has rank R with extent != 1 only on its own axis t.
     mesh = False
-    if len(advs) > 1:
+    paired = False
+    if len(advs) > 1 and builtins.all(p[1].ndim == 1 for p in advs):
+        # several 1-D index arrays: NumPy PAIRS them element by element (pointwise indexing); they must have one length
+        # (a length-1 array would be broadcast: not modelled)
+        m0 = advs[0][1]._shape[0]
+        for p in advs[1:]:
+            m_t = p[1]._shape[0]
+            if m_t is not m0 and not ctx().decide(zint(m_t) == zint(m0), "paired index arrays have one length"):
+                if ctx().decide(z3.Or(zint(m_t) == 1, zint(m0) == 1), "a length-1 index array is broadcast"):
+                    raise OutOfSubset("broadcasting of a length-1 index array against another")
+                raise IndexError("shape mismatch: indexing arrays could not be broadcast together")
+        paired = True
+        pos = [i for i, p in enumerate(plan) if p[0] == "adv"]
+        ints_between = [i for i, p in enumerate(plan) if p[0] == "int"]
+        lo_, hi_ = builtins.min(pos + ints_between), builtins.max(pos + ints_between)
+        contiguous = builtins.all(plan[i][0] in ("adv", "int") for i in range(lo_, hi_ + 1))
+    elif len(advs) > 1:
         R = advs[0][1].ndim
         if R != len(advs) or builtins.any(p[1].ndim != R for p in advs):
             raise OutOfSubset("several advanced indices that are not an np.ix_ open mesh")
@@ -1294,6 +1310,8 @@ def _index_nd(a, key):
     adv_dims = []     # extents contributed by the advanced block
     if mesh:
         adv_dims = [p[1]._shape[t] for t, p in enumerate(advs)]
+    elif paired:
+        adv_dims = [advs[0][1]._shape[0]]
     elif advs:
         adv_dims = [advs[0][1]._shape[0]]
     out_dims = []     # list of ("slice", planindex) / ("new",) / ("advblock",)
@@ -1471,6 +1489,7 @@ def _setitem(a, key, value):
     kinds_ = []      # per dim: "int" | "slice" | "adv" (NumPy's placement rule below needs to know which is which)
     arr_oks, arr_empties = [], []      # bounds of index arrays are checked only when no array factor is empty (NumPy's rule)
     plain_index_arrays = []            # ranks of the integer index arrays met (to tell an open mesh from paired 1-D arrays)
+    paired_g = {}                      # dim -> (position function k -> Int, length) of each plain integer index array
     for d, k in enumerate(key):
         n = a._shape[d]
         if isinstance(k, (int, SymInt)) and not isinstance(k, bool):
@@ -1551,11 +1570,14 @@ def _setitem(a, key, value):
                     co = lambda i, w=w: w(zint(i))
                 tests.append((mem, co, m))
                 kinds_.append("adv")
+                paired_g[d] = (g, m)
             else:
                 raise IndexError("arrays used as indices must be of integer (or boolean) type")
         else:
             raise OutOfSubset("assignment key component %s" % type(k).__name__)
     n_adv = len(arr_empties)
+    if len(plain_index_arrays) >= 2 and n_adv == len(plain_index_arrays) and builtins.all(r == 1 for r in plain_index_arrays):
+        return _setitem_paired(a, buf, old, tests, kinds_, paired_g, arr_oks, arr_empties, value, conv)
     if len(plain_index_arrays) >= 1 and n_adv > 1 and builtins.any(r != n_adv for r in plain_index_arrays):
         # two or more advanced indices that are NOT the factors of an np.ix_ open mesh: NumPy broadcasts them against each
         # other (1-D arrays are PAIRED element by element), which is not the orthogonal selection modelled here
@@ -1589,6 +1611,72 @@ def _setitem(a, key, value):
     def fn(*idx):
         member = z3.And([to_z3(t[0](i)) for t, i in zip(tests, idx)])
         return z3.If(member, newval(idx), old(*idx))
+    buf.fn = fn
+
+
+def _setitem_paired(a, buf, old, tests, kinds_, paired_g, arr_oks, arr_empties, value, conv):
+    """a[I, J, ...] = v with several 1-D integer arrays: NumPy pairs them (cell k of the selection is a[I[k], J[k], ...]);
+    a cell addressed more than once keeps the LAST value written.  Integers and slices may stand next to the arrays."""
+    dims = sorted(paired_g)
+    m0 = paired_g[dims[0]][1]
+    for d in dims[1:]:
+        m_t = paired_g[d][1]
+        if m_t is not m0 and not ctx().decide(zint(m_t) == zint(m0), "paired index arrays have one length"):
+            if ctx().decide(z3.Or(zint(m_t) == 1, zint(m0) == 1), "a length-1 index array is broadcast"):
+                raise OutOfSubset("broadcasting of a length-1 index array against another")
+            raise IndexError("shape mismatch: indexing arrays could not be broadcast together")
+    if arr_oks and not ctx().decide(z3.Or(zint(m0) == 0, z3.And(arr_oks)), "integer index arrays in bounds (or the broadcast index is empty)"):
+        raise IndexError("index out of bounds")
+    gs = [paired_g[d][0] for d in dims]
+    mt = zint(m0)
+    cm = conc(m0)
+    if cm is not None and cm <= 6:
+        def member(ps):
+            return z3.Or([z3.And([g(kk) == zint(p_) for g, p_ in zip(gs, ps)]) for kk in range(cm)]) if cm else z3.BoolVal(False)
+        def coord(ps):
+            out = z3.IntVal(0)
+            for kk in range(cm):
+                out = z3.If(z3.And([g(kk) == zint(p_) for g, p_ in zip(gs, ps)]), kk, out)      # last write wins
+            return out
+    else:
+        w = z3.Function(fresh_name("last_write"), *([z3.IntSort()] * (len(dims) + 1)))
+        def at_k(kk):
+            return [g(kk) for g in gs]
+        ctx().add(forall(0, mt, lambda kk: z3.And(w(*at_k(kk)) >= kk, w(*at_k(kk)) < mt, *[g(w(*at_k(kk))) == g(kk) for g in gs])))
+        def member(ps):
+            ps = [zint(p_) for p_ in ps]
+            return z3.And(w(*ps) >= 0, w(*ps) < mt, *[g(w(*ps)) == p_ for g, p_ in zip(gs, ps)])
+        def coord(ps):
+            return w(*[zint(p_) for p_ in ps])
+    # layout of the selection: the paired block is ONE dimension; it stands where the first advanced index stands when the
+    # advanced indices (integers included) are adjacent, and first otherwise
+    grp = [d for d, kd in enumerate(kinds_) if kd in ("adv", "int")]
+    separated = builtins.any(kinds_[d] == "slice" for d in range(builtins.min(grp), builtins.max(grp) + 1))
+    slices = [d for d, kd in enumerate(kinds_) if kd == "slice"]
+    if separated:
+        layout = ["pair"] + slices
+    else:
+        layout = [d for d in slices if d < grp[0]] + ["pair"] + [d for d in slices if d > grp[0]]
+    selshape = tuple(m0 if e == "pair" else tests[e][2] for e in layout)
+    def sel_of(idx):
+        return tuple(coord([idx[d] for d in dims]) if e == "pair" else tests[e][1](idx[e]) for e in layout)
+    if isinstance(value, ndarray):
+        vshape, ia, ib = _bshape(selshape, value._shape)
+        if len(vshape) != len(selshape):
+            raise ValueError("could not broadcast input array")
+        for s_out, s_in in zip(vshape, selshape):
+            if (conc(s_out) is None and s_out is not s_in) or (conc(s_out) is not None and conc(s_out) != conc(s_in)):
+                if not ctx().decide(zint(s_out) == zint(s_in), "assignment broadcast fits"):
+                    raise ValueError("could not broadcast input array from shape into shape")
+        fv = value.snapshot()
+        newval = lambda idx: conv(fv(*ib(sel_of(idx))))
+    else:
+        tv = conv(_scalar_term(value))
+        newval = lambda idx: tv
+    def fn(*idx):
+        others = [to_z3(tests[d][0](idx[d])) for d, kd in enumerate(kinds_) if kd in ("int", "slice")]
+        mem = z3.And(others + [member([idx[d] for d in dims])])
+        return z3.If(mem, newval(idx), old(*idx))
     buf.fn = fn
 
 
@@ -2793,6 +2881,16 @@ def _make_reducer(name, rule):
             return _product(list(a))         # np.prod of a list of extents: a product that remembers its factors
         if kw.pop("keepdims", False):
             raise OutOfSubset("keepdims")
+        if name == "sum" and axis in (None, 0, -1) and not kw:
+            arr = asarray(a)
+            if arr.ndim == 1 and arr.elem in ("bool", "int") and conc(arr._shape[0]) is not None and conc(arr._shape[0]) <= 8:
+                # the sum of a few booleans / integers is exact arithmetic (a count of Python-level flags, typically)
+                fa = arr.snapshot()
+                total = z3.IntVal(0)
+                for kk in range(conc(arr._shape[0])):
+                    t = to_z3(fa(kk))
+                    total = total + (z3.If(t, 1, 0) if z3.is_bool(t) else t)
+                return mkint(z3.simplify(total))
         return _along_axis(name, a, axis, kw, rule)
     f.__name__ = name
     return f
